@@ -34,6 +34,7 @@ type Opts struct {
 	FailingTests int  // % of custom tests that always fail
 	NoPtrPtr     bool
 	IssuePathPct int // % of option sets with IssuePath (0: 20)
+	TimeLayouts  bool // allow Time.Format(layout) (also allowed by Coercers)
 	PreWeight    int // weight of Preprocess among the node kinds when Pre is allowed (0: 3)
 }
 
@@ -121,6 +122,9 @@ func (g *G) nodeOfKind(k spec.Kind, depth int) *spec.Node {
 				f.Tags = map[string]string{}
 				if g.pct(50) {
 					f.Tags["zog"] = "z_" + strings.ToLower(key)
+					if g.pct(12) {
+						f.Tags["zog"] += ",main" // a key is an arbitrary string: nothing after a comma is an option
+					}
 				}
 				for _, src := range []string{"json", "form", "query", "env"} {
 					if g.pct(30) {
@@ -333,7 +337,7 @@ func (g *G) primitive(n *spec.Node) {
 				n.Tests = append(n.Tests, spec.Test{Op: spec.TEQ, Arg: w.In(time.FixedZone("x", 3600*g.R.Range(-5, 5))), Opts: g.testOpts(false)})
 			}
 		}
-		if g.O.Coercers && g.pct(25) {
+		if (g.O.Coercers || g.O.TimeLayouts) && g.pct(25) {
 			n.Layout = []string{"2006-01-02", time.RFC1123, "02/01/2006 15:04", time.RFC3339Nano}[g.R.Intn(4)]
 		}
 		g.maybeCustomOnPrimitive(n)
